@@ -38,15 +38,16 @@ func c18ip(i int) string   { return fmt.Sprintf("10.0.0.%d", i+1) }
 func c18addr(i int) string { return "tcp://" + c18ip(i) + ":9502" }
 
 type c18Cluster struct {
-	c       *controller.Controller
-	nodes   []*eb.ModelNode
-	bes     map[int]*remote.Remote // latest backend per node
-	gateOn  bool                   // reference runs: AddReplica stops after factory.Create until released
-	gateRel bool
-	gated   bool
-	notes   []string
-	rf      int
-	q       *c03Quorum // C03conc: oracle evaluated when a mutating data call reaches a replica (nil otherwise)
+	c         *controller.Controller
+	nodes     []*eb.ModelNode
+	bes       map[int]*remote.Remote // latest backend per node
+	gateOn    bool                   // reference runs: AddReplica stops after factory.Create until released
+	gateRel   bool
+	gated     bool
+	notes     []string
+	rf        int
+	q         *c03Quorum   // C03conc: oracle evaluated when a mutating data call reaches a replica (nil otherwise)
+	failReads map[int]bool // op RF: reads fail on these nodes (the replicas that were RW when the cluster was built)
 }
 
 var c18cur *c18Cluster
@@ -80,7 +81,12 @@ func (x c18IOs) WriteAt(b []byte, off int64) (int, error) {
 	}
 	return x.n.WriteAt(b, off)
 }
-func (x c18IOs) ReadAt(b []byte, off int64) (int, error) { return x.n.ReadAt(b, off) }
+func (x c18IOs) ReadAt(b []byte, off int64) (int, error) {
+	if x.cl.failReads[x.node] {
+		return 0, fmt.Errorf("injected read failure on node %d", x.node+1)
+	}
+	return x.n.ReadAt(b, off)
+}
 func (x c18IOs) Sync() (int, error) {
 	if q := x.cl.q; q != nil {
 		if err := q.reach(x.cl, x.node, "S", 0, 0); err != nil {
@@ -292,6 +298,17 @@ func (cl *c18Cluster) op(name string) string {
 		buf := make([]byte, eb.Block)
 		n, err := c.ReadAt(buf, 0)
 		return fmt.Sprintf("R:n=%d,%s,data=%.6x", n, e(err), sha1.Sum(buf))
+	case name == "RF" || name == "RF0":
+		// a read that fails on both replicas that were RW when the cluster was built (RF0: only on node 0)
+		cl.failReads = map[int]bool{0: true, 1: name == "RF"}
+		buf := make([]byte, eb.Block)
+		n, err := c.ReadAt(buf, 0)
+		cl.failReads = nil
+		return fmt.Sprintf("%s:n=%d,%s,data=%.6x", name, n, e(err), sha1.Sum(buf))
+	case strings.HasPrefix(name, "RW"):
+		return name + ":" + e(c.SetReplicaMode(c18addr(idx()), types.RW))
+	case strings.HasPrefix(name, "Err"):
+		return name + ":" + e(c.SetReplicaMode(c18addr(idx()), types.ERR))
 	case strings.HasPrefix(name, "Rm"):
 		return name + ":" + e(c.RemoveReplica(c18addr(idx())))
 	case strings.HasPrefix(name, "Add"):
@@ -588,3 +605,24 @@ func c13Configs(tier string) []C18Cfg {
 }
 
 func checkC13() int { return checkSimple("C13", "C13conc", "C13-conc.part") }
+
+// c04Configs: reads against promotion, removal and failures (part C04conc of C04): a read is served only by a replica that
+// is RW, fails over when its replica fails, and fails when no RW replica can serve it - in every interleaving the read's
+// result (count, error, data digest) and the final membership are those of some sequential order.
+func c04Configs(tier string) []C18Cfg {
+	var out []C18Cfg
+	add := func(init string, ops ...string) { out = append(out, C18Cfg{Name: "read", Init: init, Ops: ops}) }
+	for _, p := range [][]string{{"RF", "Ver2"}, {"RF0", "Ver2"}, {"R", "Ver2"}, {"RF", "RW2"}, {"RF0", "RW2"}, {"RF", "Rm2"}, {"RF", "Mon2"}, {"R", "Err0"}, {"RF0", "Err1"}, {"RF", "W0"}} {
+		add("rw2wo", p...)
+	}
+	for _, p := range [][]string{{"RF", "Rm2"}, {"RF0", "Mon1"}, {"RF", "Err2"}, {"RF0", "R"}, {"RF0", "W0"}} {
+		add("rw3", p...)
+	}
+	if tier == "thorough" {
+		add("rw2wo", "RF", "Ver2", "W0")
+		add("rw3", "RF0", "R", "Mon1")
+	}
+	return out
+}
+
+func checkC04() int { return checkSimple("C04", "C04conc", "C04-conc.part") }
